@@ -1214,18 +1214,20 @@ class MeshRegion:
                 )
 
             # calculate curl on x-y grid
+            # Note: Bpxy carries the sign bpsign and the direction of increasing y is
+            # bpsign times the direction of Bp. With the signed Bpxy these expressions
+            # are the contravariant components for both signs (curl_bOverB_x does not
+            # depend on the direction of y, curl_bOverB_y reverses with it), consistent
+            # with the "curl(b/B)" formulation below.
             self.curl_bOverB_x = (
                 -2.0
-                * self.bpsign
                 * self.Bpxy
                 * self.Btxy
                 * self.Rxy
                 / (self.hy * self.Bxy**3)
                 * self.DDY("#Bxy")
             )
-            self.curl_bOverB_y = (
-                -self.bpsign * self.Bpxy / self.hy * self.DDX("#Btxy*#Rxy/#Bxy**2")
-            )
+            self.curl_bOverB_y = -self.Bpxy / self.hy * self.DDX("#Btxy*#Rxy/#Bxy**2")
             self.curl_bOverB_z = (
                 self.Bpxy**3 / (self.hy * self.Bxy**2) * self.DDX("#hy/#Bpxy")
                 - self.Btxy * self.Rxy / self.Bxy**2 * self.DDX("#Btxy/#Rxy")
